@@ -13,13 +13,13 @@ PID = "C02"
 TECHNIQUE = "Lean 4 theorems (structural induction over the layout combinators) + exact cell-for-cell correspondence"
 LEVEL_TEXT = ("Theorems in Lean about the executable layout model (pad / stack / border combinators, recipe_tree_to_table): the cells tile the "
               "h x w rectangle exactly once for every tree, every drawn node appears exactly once with its kind, proved by induction for all "
-              "trees; read-back (C02.6): the visible table (positions, spans, kinds, borders) determines the drawing of the tree and conversely "
+              "trees - and every tree compile() returns is such a tree (compile_wf, compile_layout_tiles: no hypothesis left); read-back (C02.6): the visible table (positions, spans, kinds, borders) determines the drawing of the tree and conversely "
               "(table_determines_drawing, drawing_determines_table, an explicit computable readback with readback_layout), with and without labels; "
               "the model is tied to recipe_tree_to_table by cell-for-cell equality (position, spans, node, four borders) on random trees.")
 LEVEL_NOTE = ("Trusted: Lean kernel; hand-written layout model as far as the correspondence exercises it (random trees up to several hundred leaves, "
               "exhaustive small shapes in the thorough tier). Step geometry, border spec and read-back are theorems and are checked again on the real tables by the "
               "implementation-level oracle on every generated tree.")
-LEAN_MODULES = ["RecipeGrid.Props.C02", "RecipeGrid.Props.C02b"]
+LEAN_MODULES = ["RecipeGrid.Props.C02", "RecipeGrid.Props.C02b", "RecipeGrid.Props.C02c"]
 SOURCES = ["recipe_grid/renderer/recipe_to_table.py", "recipe_grid/renderer/table.py"]
 RULE = ("random recipe trees (arity 1..6, depth <= 8 quick / 12 thorough, titled/untitled/nested single-output sub recipes, multi-output roots, "
         "references as leaves) plus every tree shape with <= 5 (quick) / 6 (thorough) nodes; non-trivial = more than one cell; distinct = distinct table keys")
